@@ -154,7 +154,7 @@ def gen_lines(ctx):
 # ----------------------------------------------------------------------------- component: run
 def build_harness(ctx):
     src = [os.path.join(vlib.HARNESS, "replay_harness.c"), os.path.join(vlib.REPO, "src/munged/hash.c")]
-    return vlib.cc(ctx, "c13replayh", src, extra=["-Wl,--wrap=time"], libs=["-lpthread"])
+    return vlib.cc(ctx, "c13replayh", src, extra=["-Wl,--wrap=time,--wrap=malloc"], libs=["-lpthread"])
 
 
 def rollback_component(ctx, proved=True, built=None, oracle=None):
